@@ -85,15 +85,23 @@ Fixpoint b64enc (s : string) : string :=
 (* ---------- the entry: json.Marshal(fileCacheContent{BaseCRL, DeltaCRL}) ----------
    A Raw field is a byte string; "" stands for a nil slice (the only empty
    slice the harness produces): BaseCRL nil is printed as null, DeltaCRL of
-   length 0 is omitted (omitempty). *)
+   length 0 is omitted (omitempty). An empty but non-nil BaseCRL (printed as
+   "" by json.Marshal) is told apart by the flag of OSet. *)
 Definition jbytes (x : string) : string :=
   match x with
   | EmptyString => "null"
   | _ => """" ++ b64enc x ++ """"
   end.
 
-Definition enc_json (b : string) (d : option string) : string :=
-  "{""baseCRL"":" ++ jbytes b ++
+(* the base: a nil Raw is printed as null, an empty but non-nil one (flag e) as "" *)
+Definition jbase (e : bool) (x : string) : string :=
+  match x with
+  | EmptyString => if e then """""" else "null"
+  | _ => jbytes x
+  end.
+
+Definition enc_json (e : bool) (b : string) (d : option string) : string :=
+  "{""baseCRL"":" ++ jbase e b ++
   match d with
   | None | Some EmptyString => ""
   | Some x => ",""deltaCRL"":" ++ jbytes x
@@ -124,7 +132,8 @@ Inductive res :=
 | RNone.              (* operation of the environment *)
 
 Inductive op :=
-| OSet (u : string) (bd : option (option string * option string))
+| OSet (u : string) (e : bool) (bd : option (option string * option string))
+       (* e: the Raw of the base is empty but not nil (meaningful only when it is "") *)
        (* None = nil bundle; components = Raw of BaseCRL / DeltaCRL, None = nil pointer *)
 | OGet (u : string) (t : Z)                (* t = time.Now() of the call *)
 | OPut (u : string) (c : string)           (* environment: the file of u's key now holds c *)
@@ -132,7 +141,7 @@ Inductive op :=
 | OMkdir (u : string).                     (* environment: a directory sits at u's key *)
 
 Definition op_url (o : op) : string :=
-  match o with OSet u _ | OGet u _ | OPut u _ | ODel u | OMkdir u => u end.
+  match o with OSet u _ _ | OGet u _ | OPut u _ | ODel u | OMkdir u => u end.
 
 Definition urls (ops : list op) : list string := map op_url ops.
 
@@ -146,7 +155,7 @@ Definition join (dir name : string) : string := dir ++ "/" ++ name.
 (* ---------- the cache, over its external functions ---------- *)
 Section Cache.
   Variable sha : string -> string.
-  Variable enc : string -> option string -> string.
+  Variable enc : bool -> string -> option string -> string.
   Variable dec : string -> option (string * option string).
   Variable parse : string -> crlfact.
 
@@ -199,7 +208,7 @@ Section Cache.
     end.
 
   (* Set: new directory, result, destination handed to file.WriteFile *)
-  Definition set (f : fs) (u : string) (bd : option (option string * option string))
+  Definition set (f : fs) (u : string) (e : bool) (bd : option (option string * option string))
     : fs * res * list string :=
     match bd with
     | None => (f, RErr 7, [])
@@ -208,13 +217,13 @@ Section Cache.
         let n := file_name u in
         match alookup n f with
         | Some None => (f, RErr 9, [n])     (* rename(2) onto a directory fails; temp removed *)
-        | _ => (aset n (Some (enc b d)) f, ROk, [n])
+        | _ => (aset n (Some (enc e b d)) f, ROk, [n])
         end
     end.
 
   Definition step (f : fs) (o : op) : fs * res * list string :=
     match o with
-    | OSet u bd => set f u bd
+    | OSet u e bd => set f u e bd
     | OGet u t => (f, get f u t, [])
     | OPut u c => (aset (file_name u) (Some c) f, RNone, [])
     | ODel u => (adel (file_name u) f, RNone, [])
@@ -257,9 +266,9 @@ Section Cache.
 
   Definition spec_step (s : sstate) (o : op) : sstate * res :=
     match o with
-    | OSet u None => (s, RErr 7)
-    | OSet u (Some (None, _)) => (s, RErr 8)
-    | OSet u (Some (Some b, d)) =>
+    | OSet u _ None => (s, RErr 7)
+    | OSet u _ (Some (None, _)) => (s, RErr 8)
+    | OSet u _ (Some (Some b, d)) =>
         match s u with
         | Some SDir => (s, RErr 9)
         | _ => (supd u (Some (SEntry b (norm d))) s, ROk)
@@ -329,7 +338,7 @@ Section Cache.
     | o :: ops', r :: rs' =>
         match o with
         | OGet u t => if get_ok (s u) t r then check s ops' rs' else None
-        | OSet u (Some (Some b, d)) =>
+        | OSet u _ (Some (Some b, d)) =>
             match s u with
             | Some SDir => if is_err r then check s ops' rs' else None
             | _ => match r with
@@ -337,7 +346,7 @@ Section Cache.
                    | _ => None
                    end
             end
-        | OSet u _ => if is_err r then check s ops' rs' else None
+        | OSet u _ _ => if is_err r then check s ops' rs' else None
         | OPut u c =>
             match r with RNone => check (supd u (Some (slot_of (dec c))) s) ops' rs' | _ => None end
         | ODel u =>
@@ -370,7 +379,7 @@ Section Cache.
 
   Definition writes_of (o : op) : list string :=
     match o with
-    | OSet u (Some (Some _, _)) => [join root (file_name u)]
+    | OSet u _ (Some (Some _, _)) => [join root (file_name u)]
     | _ => []
     end.
 
@@ -419,7 +428,7 @@ Definition dec_res_eqb (a b : option (string * option string)) : bool :=
 (* decoding what Set wrote gives back what was stored (checked on every Set of the history) *)
 Definition roundtrip_b (dec : string -> option (string * option string)) (ops : list op) : bool :=
   forallb (fun o => match o with
-                    | OSet _ (Some (Some b, d)) => dec_res_eqb (dec (enc_json b d)) (Some (b, norm d))
+                    | OSet _ e (Some (Some b, d)) => dec_res_eqb (dec (enc_json e b d)) (Some (b, norm d))
                     | _ => true
                     end) ops.
 
@@ -452,10 +461,10 @@ Definition inj_on (sha : string -> string) (us : list string) : Prop :=
   forall u v, In u us -> In v us -> sha u = sha v -> u = v.
 
 (* the decoder gives back what the encoder was given, on every Set of the history *)
-Definition rt_op (enc : string -> option string -> string)
+Definition rt_op (enc : bool -> string -> option string -> string)
            (dec : string -> option (string * option string)) (o : op) : Prop :=
   match o with
-  | OSet _ (Some (Some b, d)) => dec (enc b d) = Some (b, norm d)
+  | OSet _ e (Some (Some b, d)) => dec (enc e b d) = Some (b, norm d)
   | _ => True
   end.
 Definition roundtrip_on enc dec (ops : list op) : Prop := Forall (rt_op enc dec) ops.
@@ -508,8 +517,8 @@ Definition has_key {V} (k : string) (m : list (string * V)) : bool :=
 Definition facts_cover (i : input) : bool :=
   forallb (fun o => match o with
                     | OPut _ c => has_key c (i_dec i)
-                    | OSet _ (Some (Some b, d)) =>
-                        has_key (enc_json b d) (i_dec i) && has_key b (i_parse i)
+                    | OSet _ e (Some (Some b, d)) =>
+                        has_key (enc_json e b d) (i_dec i) && has_key b (i_parse i)
                         && match norm d with Some x => has_key x (i_parse i) | None => true end
                     | _ => true
                     end) (i_ops i)
